@@ -182,6 +182,11 @@ def classify(res, stderr):
             res.undecided.append('failed obligation outside any extracted function (framework proof broken): %s @%d %s'
                                  % (msg, p0['line_start'], norm[:80]))
             continue
+        deg = [f for f in info['functions'] if f['fn'] == fn and f.get('degraded')]
+        if deg and not (kind == 'postcondition' and label):
+            res.undecided.append('%s: %s failed after loop annotations were dropped (%s): not decidable without new annotations'
+                                 % (fn, oid, deg[0]['degraded']))
+            continue
         res.failed.append({'obligation': oid, 'kind': kind, 'fn': fn, 'label': label, 'gen_line': site['line_start'],
                            'text': norm, 'message': msg, 'rendered': d.get('rendered', '')})
 
